@@ -51,7 +51,7 @@ def generate(prop, spec, repo, C, defs, classes, LEMMAS, mode_filter=None):
         try:
             v, info = ex.verify(key)
         except (Undecided, StaleContract) as e:
-            und.append(dict(function=key, reason='%s: %s' % (type(e).__name__, e))); continue
+            und.append(dict(function=key, reason=('%s: %s' % (type(e).__name__, e))[:400])); continue
         except KeyError as e:
             und.append(dict(function=key, reason='missing: %s' % e, missing=True)); continue
         info['gen_s'] = round(time.time() - t0, 3)
@@ -64,7 +64,7 @@ def generate(prop, spec, repo, C, defs, classes, LEMMAS, mode_filter=None):
         try:
             v, info = ex.verify_lemma(name, LEMMAS[name])
         except (Undecided, StaleContract) as e:
-            und.append(dict(function='lemma:' + name, reason='%s: %s' % (type(e).__name__, e))); continue
+            und.append(dict(function='lemma:' + name, reason=('%s: %s' % (type(e).__name__, e))[:400])); continue
         for x in v: x.name = '%s/lemma:%s/%s' % (prop, name.split('/', 1)[-1], x.name)
         vcs += v; infos.append(info)
     return vcs, infos, und
